@@ -13,6 +13,7 @@ import GIV.Lemmas.DiffWF
 import GIV.Lemmas.DiffRender
 import GIV.Lemmas.DiffTgs
 import GIV.Lemmas.DiffParse
+import GIV.Lemmas.DiffGo
 
 namespace GIV.C08
 open GIV GIV.Diff
@@ -298,5 +299,32 @@ theorem cmp_log_is_diff_of_compared_texts (name1 text1 name2 text2 : Bytes) (h :
   exact ⟨out, hs, h1, h2, h4, h5⟩
 
 example : ([97, 10] : Bytes) ≠ [98, 10] := by decide
+
+/-! ### `lines` of the Go source itself
+
+`GIV.Go.Diff.lines` is the Lean translation of `func lines` of diff/diff.go, regenerated from /repo's working tree on
+every check run (harness/internal/go2lean → GIV/Gen/DiffGo.lean; `none` = Go run-time panic).
+`strings.SplitAfter(s, "\n")` is the library meaning `splitAfterNL`. -/
+
+/-- The translated `lines` never panics (SplitAfter never returns an empty list, so `l[len(l)-1]` is in range)
+and is the model's `lines`, for every text. -/
+theorem go_lines_agrees (b : Bytes) : GIV.Go.Diff.lines b = some (lines b) := GIV.Go.Diff.go_lines_eq b
+
+/-- Hence for the source's `lines`: the text is recovered from its lines (a text without final newline gets the
+"\\ No newline at end of file" warning on its last line and nothing else changes), and different texts have
+different line lists — what makes `Diff` return nothing exactly for byte-identical texts. -/
+theorem go_lines_faithful (a b : Bytes) :
+    (∃ ls, GIV.Go.Diff.lines a = some ls ∧ unlines ls = a) ∧
+    (GIV.Go.Diff.lines a = GIV.Go.Diff.lines b ↔ a = b) := by
+  refine ⟨⟨lines a, go_lines_agrees a, unlines_lines a⟩, ?_⟩
+  rw [go_lines_agrees, go_lines_agrees]
+  constructor
+  · intro h; exact lines_inj.mp (Option.some.inj h)
+  · intro h; rw [h]
+
+-- the generated definition, evaluated by the kernel: "a\nb" (no final newline) and "a\n"
+example : GIV.Go.Diff.lines [97, 10, 98] = some [[97, 10], [98] ++ noNewline] := by decide +kernel
+example : GIV.Go.Diff.lines [97, 10] = some [[97, 10]] := by decide +kernel
+example : GIV.Go.Diff.lines [] = some [] := by decide +kernel
 
 end GIV.C08
